@@ -15,7 +15,7 @@ from .c10_lists import elem_value, _rot2, _rot3
 # --------------------------------------------------------------------------- #
 # raw value generators: kind x k -> float64 C-contiguous ndarray (or python scalar)
 
-VEC_KINDS = ['v2', 'v3', 'v4', 'v6', 'uv3', 'q', 'sv3']
+VEC_KINDS = ['v2', 'v3', 'v4', 'v6', 'uv3', 'q', 'sv3', 'dims']
 MAT_KINDS = ['R2', 'T2', 'R3', 'T3', 'so2', 'se2', 'so3', 'se3', 'p2', 'p3', 'm66', 'm33',
              'hp2', 'hp3', 'qN', 'tN']
 SCALAR_KINDS = ['ang', 'sc', 's01', 'int', 'posint', 'tol', 'bool']
@@ -91,6 +91,9 @@ def gen_array(kind, k):
         sp = special_array(kind, k - 8)
         if sp is not None:
             return sp
+    if kind == 'dims':      # plot volume: [lo, hi] or [xlo, xhi, ylo, yhi(, zlo, zhi)]
+        n = [2, 4, 6][k % 3]
+        return np.array([(-2.0 - 0.5 * (k % 4)) if i % 2 == 0 else (2.0 + 0.25 * (k % 4)) for i in range(n)])
     if kind == 'v2':
         return np.array([0.5 * k + 0.25, -0.75 * k + 1.0])
     if kind == 'v3':
